@@ -376,3 +376,129 @@ func ParamWrites(fn *ssa.Function) []ParamWrite {
 	}
 	return out
 }
+
+// SlotLeak is a path on which a token taken from a channel used as a counting semaphore is not given back.
+type SlotLeak struct {
+	Acquire ssa.Instruction // the send that takes the slot
+	Exit    ssa.Instruction // the return reached without the matching receive
+}
+
+// SemaphoreLeaks finds, in fn, channels of zero-size elements that fn both sends to and receives from (the
+// acquire/release idiom `sem <- struct{}{} ... <-sem`) and returns every path from a send to a return that
+// passes no receive on the same channel. A deferred function literal that receives from the channel releases on
+// every exit.
+func SemaphoreLeaks(fn *ssa.Function) []SlotLeak {
+	type use struct {
+		in  ssa.Instruction
+		key string
+	}
+	var sends, recvs []use
+	zero := func(t types.Type) bool {
+		ch, ok := t.Underlying().(*types.Chan)
+		if !ok {
+			return false
+		}
+		st, isSt := ch.Elem().Underlying().(*types.Struct)
+		return isSt && st.NumFields() == 0
+	}
+	collect := func(f *ssa.Function, s, r *[]use) {
+		Instrs(f, func(in ssa.Instruction) {
+			switch x := in.(type) {
+			case *ssa.Send:
+				if zero(x.Chan.Type()) {
+					*s = append(*s, use{in, ExprKey(x.Chan)})
+				}
+			case *ssa.UnOp:
+				if x.Op == token.ARROW && zero(x.X.Type()) {
+					*r = append(*r, use{in, ExprKey(x.X)})
+				}
+			}
+		})
+	}
+	collect(fn, &sends, &recvs)
+	if len(sends) == 0 || len(recvs) == 0 {
+		return nil
+	}
+	// deferred literals that release
+	deferred := map[string]bool{}
+	Instrs(fn, func(in ssa.Instruction) {
+		d, ok := in.(*ssa.Defer)
+		if !ok {
+			return
+		}
+		var lit *ssa.Function
+		var binds []ssa.Value
+		if mc, isMC := d.Call.Value.(*ssa.MakeClosure); isMC {
+			lit, _ = mc.Fn.(*ssa.Function)
+			binds = mc.Bindings
+		}
+		if lit == nil {
+			return
+		}
+		var s2, r2 []use
+		collect(lit, &s2, &r2)
+		for _, r := range r2 {
+			// the literal's free variable stands for the binding of the enclosing function
+			rx := r.in.(*ssa.UnOp).X
+			if fv, isFV := rx.(*ssa.FreeVar); isFV {
+				for i, f := range lit.FreeVars {
+					if f == fv && i < len(binds) {
+						deferred[ExprKey(binds[i])] = true
+						if ld, isLd := binds[i].(*ssa.Alloc); isLd {
+							_ = ld
+						}
+					}
+				}
+			}
+			if u, isU := rx.(*ssa.UnOp); isU && u.Op == token.MUL {
+				if fv, isFV := u.X.(*ssa.FreeVar); isFV {
+					for i, f := range lit.FreeVars {
+						if f == fv && i < len(binds) {
+							deferred["*"+ExprKey(binds[i])] = true
+						}
+					}
+				}
+			}
+		}
+	})
+	var out []SlotLeak
+	for _, s := range sends {
+		paired := false
+		for _, r := range recvs {
+			if r.key == s.key {
+				paired = true
+			}
+		}
+		if !paired || deferred[s.key] {
+			continue
+		}
+		if u, isU := s.in.(*ssa.Send).Chan.(*ssa.UnOp); isU && u.Op == token.MUL && deferred["*"+ExprKey(u.X)] {
+			continue
+		}
+		seen := map[*ssa.BasicBlock]bool{}
+		var walk func(b *ssa.BasicBlock, from int)
+		walk = func(b *ssa.BasicBlock, from int) {
+			for i := from; i < len(b.Instrs); i++ {
+				switch x := b.Instrs[i].(type) {
+				case *ssa.UnOp:
+					if x.Op == token.ARROW && ExprKey(x.X) == s.key {
+						return
+					}
+				case *ssa.Return:
+					if b != fn.Recover {
+						out = append(out, SlotLeak{s.in, x})
+					}
+					return
+				}
+			}
+			for _, nx := range b.Succs {
+				if !seen[nx] {
+					seen[nx] = true
+					walk(nx, 0)
+				}
+			}
+		}
+		walk(s.in.Block(), idx(s.in)+1)
+	}
+	return out
+}
